@@ -268,9 +268,11 @@ void* _mi_heap_realloc_zero(mi_heap_t* heap, void* p, size_t newsize, bool zero)
   }
   void* newp = mi_heap_malloc(heap,newsize);
   if mi_likely(newp != NULL) {
-    if (zero && newsize > size) {
-      // also set last word in the previous allocation to zero to ensure any padding is zero-initialized
-      const size_t start = (size >= sizeof(intptr_t) ? size - sizeof(intptr_t) : 0);
+    if (zero) {
+      // zero everything beyond the bytes that are copied below (also when the block moves without growing past its old
+      // usable size); also set the last word of the copied part to zero to ensure any padding is zero-initialized
+      const size_t csize = (newsize > size ? size : newsize);
+      const size_t start = (csize >= sizeof(intptr_t) ? csize - sizeof(intptr_t) : 0);
       _mi_memzero((uint8_t*)newp + start, mi_usable_size(newp) - start);  // zero the slack too: a later in-place expansion exposes it
     }
     else if (newsize == 0) {
